@@ -1,8 +1,52 @@
 from ._muxprops import make, COMMON_RULE
+from . import C12
 
 SPEC = make("C05", "Properties.C05", ['C05_eof_means_all', 'C05_eof_reachable', 'C05_write_after_close', 'C05_empty_write', 'C05_shutdown_projects', 'C05_finish_projects'],
             [("pair", "single", 0.5), ("pair", "drop", 0.25), ("pair", "end", 0.25)],
             COMMON_RULE + "For this property additionally: single-flow scripts (one established stream, then only reads / "
             "plain, vectored and empty writes / shutdowns and message-by-message deliveries, 40-120 labels) whose read and "
             "write results are also compared with the one-direction flow model Flow/Core.v on which the multi-step "
-            "theorems are proved.", "DESIGN.md §5 C05", flow=True)
+            "theorems are proved; and a writer parked for credit while the connection task closes the stream under it (peer abort, wind-down), on loom "
+            "threads (the hook's programs with a close thread): in every C11 execution the writer is woken or sees the close, so that its "
+            "write fails with BrokenPipe instead of staying parked; outcome sets compared with Atomic/Model.v.", "DESIGN.md §5 C05", flow=True)
+
+_base = type(SPEC)
+
+
+class C05(_base):
+    def runs(self, tier, seed):
+        return _base.runs(self, tier, seed) + [("loom:writer-vs-close", "release", lambda: C12.close_cases(), None)]
+
+    def equal(self, case, impl, model):
+        if case.startswith("12 "):
+            return C12.decode_sets(impl) == C12.decode_sets(model)
+        return _base.equal(self, case, impl, model)
+
+    def cell(self, case, impl):
+        if case.startswith("12 "):
+            return "writer-vs-close/" + "/".join(case.split()[1:])
+        return _base.cell(self, case, impl)
+
+    def trace_violation(self, case, impl):
+        if case.startswith("12 "):
+            w = C12.close_violation(impl)
+            return ("parked-writer-not-woken-on-close", w) if w else None
+        return _base.trace_violation(self, case, impl)
+
+    def classify(self, case, impl, model):
+        if case.startswith("12 "):
+            w = C12.close_violation(impl)
+            if w:
+                return True, "parked-writer-not-woken-on-close", w
+            return False, "writer-vs-close-outcomes", "loom outcome set of a writer racing a close differs from the model's"
+        return _base.classify(self, case, impl, model)
+
+    def describe(self, case):
+        if case.startswith("12 "):
+            t = case.split()
+            return "one writer (credit %s, %s polls) racing an acknowledge of %s and a close (%s) on loom threads, all executions" % tuple(t[1:5])
+        return _base.describe(self, case)
+
+
+C05.__name__ = "C05"
+SPEC.__class__ = C05
